@@ -14,6 +14,7 @@ from typing import Any
 
 from .minieval import Evaluator, Host, Raised, Refused, Sym, UserFunc
 from .model import Repo
+from .foldpool import disk_cached
 
 _MISSING = object()
 
@@ -101,6 +102,7 @@ def c_order_field(unit: int, total: int, endian: str, off: int, bits: int) -> in
     return (unit >> (total - off - bits)) & ((1 << bits) - 1)
 
 
+@disk_cached('bbreads', ('bitbuffer.py',))
 def fold_reads(repo: Repo) -> dict | None:
     """Fold BitBuffer.read; returns {'cases': n, 'bad': [(endian, size, seq, unit, k, got, want)], 'straddle_bad': [...]} or None if not foldable."""
     m = BitBufferModel(repo)
@@ -141,6 +143,7 @@ def fold_reads(repo: Repo) -> dict | None:
     return out
 
 
+@disk_cached('bbwrites', ('bitbuffer.py',))
 def fold_writes(repo: Repo) -> dict | None:
     """Fold BitBuffer.write + flush over unsigned / signed storage types (Int-style and Packed-style signedness)."""
     m = BitBufferModel(repo)
